@@ -183,9 +183,9 @@ theorem add_mul_lt {a b m n : Nat} (ha : a < 2 ^ m) (hb : b < 2 ^ n) : a + 2 ^ m
 
 /-- `add_bits` on a well-formed buffer with data that fits its width: no panic, the invariant is
     kept, and the field lands exactly at the bit cursor. -/
-theorem WBuf.addBits_spec (w : WBuf) (data : Bytes) (bits : Nat)
+theorem WBuf.addBitsLit_spec (w : WBuf) (data : Bytes) (bits : Nat)
     (hinv : w.Inv) (hfit : leVal data < 2 ^ bits) (hlen : bits ≤ 8 * data.length) :
-    ∃ w', w.addBits data bits = .ok w' ∧ w'.Inv ∧ w'.used = w.used + bits
+    ∃ w', w.addBitsLit data bits = .ok w' ∧ w'.Inv ∧ w'.used = w.used + bits
       ∧ leVal w'.buffer = leVal w.buffer + 2 ^ w.used * leVal data := by
   have hlt8 := hinv.lt8
   by_cases h0 : w.lastBit = 0
@@ -198,7 +198,7 @@ theorem WBuf.addBits_spec (w : WBuf) (data : Bytes) (bits : Nat)
       have : 2 ^ bits ≤ 2 ^ (8 * ((bits + 7) / 8)) := Nat.pow_le_pow_right (by omega) (by omega)
       omega
     refine ⟨⟨w.buffer ++ data.take ((bits + 7) / 8), bits % 8⟩, ?_, ?_, ?_, ?_⟩
-    · simp [WBuf.addBits, h0]; omega
+    · simp [WBuf.addBitsLit, h0]; omega
     · have hu : (⟨w.buffer ++ data.take ((bits + 7) / 8), bits % 8⟩ : WBuf).used = w.used + bits := by
         simp only [WBuf.used, List.length_append, List.length_take, Nat.min_eq_left hk]
         rw [if_pos h0]
@@ -227,7 +227,7 @@ theorem WBuf.addBits_spec (w : WBuf) (data : Bytes) (bits : Nat)
         (by omega) (by simp; omega) (by omega) (by have := hinv.clean; rw [hused] at this; simpa using this)
     simp only [Nat.add_zero, Nat.shiftRight_zero, Nat.mod_eq_of_lt hfit] at hrun hlen' hval'
     refine ⟨⟨buf', (w.lastBit + bits) % 8⟩, ?_, ?_, ?_, ?_⟩
-    · simp [WBuf.addBits, h0, hlen0, hrun]
+    · simp [WBuf.addBitsLit, h0, hlen0, hrun]
     · have hu : (⟨buf', (w.lastBit + bits) % 8⟩ : WBuf).used = w.used + bits := by
         simp only [WBuf.used, hlen', hused]
         split <;> omega
@@ -242,6 +242,68 @@ theorem WBuf.addBits_spec (w : WBuf) (data : Bytes) (bits : Nat)
     · simp only [WBuf.used, hlen', hused]
       split <;> omega
     · simp only []; rw [hval', ← hused]
+
+
+/-- frame lemma: the per-bit loop never touches the bytes before `start_byte` -/
+theorem addBitsLoop_frame (data init : Bytes) (sb : Nat) :
+    ∀ (n b s : Nat) (tail : Bytes) (lb : Nat),
+      addBitsLoop data (init.length + s) sb n b (init ++ tail) lb
+        = Outcome.mapBuf init (addBitsLoop data s sb n b tail lb) := by
+  intro n
+  induction n with
+  | zero => intro b s tail lb; simp [addBitsLoop, Outcome.mapBuf]
+  | succ n ih =>
+    intro b s tail lb
+    rw [addBitsLoop, addBitsLoop]
+    cases hd : data[b / 8]? with
+    | none => simp [Outcome.mapBuf]
+    | some src =>
+      simp only []
+      have hge : (init.length + s + (sb + b) / 8 ≥ (init ++ tail).length) ↔ (s + (sb + b) / 8 ≥ tail.length) := by
+        simp only [List.length_append]; omega
+      have hbuf1 : (if init.length + s + (sb + b) / 8 ≥ (init ++ tail).length then init ++ tail ++ [0] else init ++ tail)
+          = init ++ (if s + (sb + b) / 8 ≥ tail.length then tail ++ [0] else tail) := by
+        by_cases h : s + (sb + b) / 8 ≥ tail.length
+        · rw [if_pos (hge.2 h), if_pos h, List.append_assoc]
+        · rw [if_neg (fun h' => h (hge.1 h')), if_neg h]
+      rw [hbuf1]
+      have hidx : init.length + s + (sb + b) / 8 = init.length + (s + (sb + b) / 8) := by omega
+      rw [hidx, List.getElem?_append_right (by omega)]
+      have hsub : init.length + (s + (sb + b) / 8) - init.length = s + (sb + b) / 8 := by omega
+      rw [hsub]
+      cases hg : (if s + (sb + b) / 8 ≥ tail.length then tail ++ [0] else tail)[s + (sb + b) / 8]? with
+      | none => simp [Outcome.mapBuf]
+      | some old =>
+        simp only []
+        rw [List.set_append_right _ _ (by omega), hsub]
+        have := ih (b + 1) s ((if s + (sb + b) / 8 ≥ tail.length then tail ++ [0] else tail).set (s + (sb + b) / 8)
+          (old ||| if src.toNat.testBit (b % 8) = true then UInt8.ofNat (2 ^ lb) else 0)) ((lb + 1) % 8)
+        exact this
+
+/-- the executed `add_bits` equals the literal transcription, for all inputs -/
+theorem WBuf.addBits_eq_lit (w : WBuf) (data : Bytes) (bits : Nat) :
+    w.addBits data bits = w.addBitsLit data bits := by
+  unfold WBuf.addBits WBuf.addBitsLit
+  by_cases h0 : w.lastBit = 0
+  · simp [h0]
+  · by_cases hl : w.buffer.length = 0
+    · simp [h0, hl]
+    · simp only [h0, hl, if_false]
+      have hsplit : w.buffer = w.buffer.take (w.buffer.length - 1) ++ w.buffer.drop (w.buffer.length - 1) :=
+        (List.take_append_drop _ _).symm
+      have hlen : (w.buffer.take (w.buffer.length - 1)).length = w.buffer.length - 1 := by
+        simp
+      have := addBitsLoop_frame data (w.buffer.take (w.buffer.length - 1)) w.lastBit bits 0 0
+        (w.buffer.drop (w.buffer.length - 1)) w.lastBit
+      rw [← hsplit, hlen, Nat.add_zero] at this
+      rw [this]
+
+theorem WBuf.addBits_spec (w : WBuf) (data : Bytes) (bits : Nat)
+    (hinv : w.Inv) (hfit : leVal data < 2 ^ bits) (hlen : bits ≤ 8 * data.length) :
+    ∃ w', w.addBits data bits = .ok w' ∧ w'.Inv ∧ w'.used = w.used + bits
+      ∧ leVal w'.buffer = leVal w.buffer + 2 ^ w.used * leVal data := by
+  rw [WBuf.addBits_eq_lit]
+  exact WBuf.addBitsLit_spec w data bits hinv hfit hlen
 
 theorem WBuf.addBytes_spec (w : WBuf) (data : Bytes) (hinv : w.Inv) :
     ∃ w', w.addBytes data = .ok w' ∧ w'.Inv ∧ w'.used = w.used + 8 * data.length
